@@ -77,8 +77,26 @@ def collections_emptied_and_recreated(tier, seed):
             if p != -1:
                 res.violation("emptied/%s/ttl-inherited" % name, "%s, emptied by %s, re-created by %s: PTTL -> %r, a new key has no TTL" % (
                     name, resp.show(empty, 30), resp.show(recreate, 30), p))
-        time.sleep(max(0.0, t_created + ttl_ms / 1000.0 + 0.05 - time.monotonic()))
-        if not wait_passes(c, 2):
+        time.sleep(max(0.0, t_created + ttl_ms / 1000.0 + 0.02 - time.monotonic()))
+        # the old deadline has passed, the sweeper has (most likely) not been here yet: the first commands that
+        # touch the re-created keys now are the ones a stale expiry record would mislead
+        p0 = c.cmd("VERIF", "SWEEPER", "PASSES")
+        t_poll = time.monotonic() + 1.3
+        polls = 0
+        while time.monotonic() < t_poll:
+            for i, (name, create, empty, recreate, read, want) in enumerate(cases):
+                k = b"em:%d" % i
+                got = c.cmd(*[k if x == b"K" else x for x in read])
+                polls += 1
+                if got != want:
+                    res.violation("emptied/%s/deleted-by-access-after-old-deadline" % name,
+                                  "%s with a %d ms TTL, emptied by %s, re-created without TTL by %s: %s shortly after the OLD deadline -> %s, expected %s "
+                                  "(sweeper passes since the deadline: %r)" % (name, ttl_ms, resp.show(empty, 30), resp.show(recreate, 30), resp.show(read, 30),
+                                                                               resp.show(got, 30), resp.show(want, 30), c.cmd("VERIF", "SWEEPER", "PASSES") - p0))
+                    return res
+            time.sleep(0.02)
+        res.count("polls_after_old_deadline", polls)
+        if not wait_passes(c, 1):
             res.inconclusive.append("sweeper passes did not advance")
             return res
         for i, (name, create, empty, recreate, read, want) in enumerate(cases):
